@@ -662,7 +662,7 @@ Lemma resolve_field_eq fuel' (obj : gv) (id : nat) (alias : option nat) (name : 
       (* first visit: ConType = t; sortArgs *)
       let '(cur_args, ea_sort, s0) :=
         match lookup id (s_args s) with
-        | Some t0 => (fst (sort_args S t0 name args), [], s)
+        | Some t0 => (fst (sort_args S t0 name args), snd (sort_args S t0 name args), s)   (* Field.badArgs are reported again *)
         | None => let (a, e) := sort_args S t name args in
                   (a, e, mkSt ((id, t) :: s_args s) (s_calls s))
         end in
@@ -1108,7 +1108,6 @@ Proof.
   set (args := a0 :: args0) in *.
   destruct (lookup t S) as [[k|fs ifaces|fs|ms|fs]|] eqn:El; try reflexivity.
   destruct (find_field name fs) as [fd|] eqn:Ef; [|reflexivity]. cbn [snd].
-  destruct (Nat.eqb _ _); [reflexivity|].
   rewrite filter_nil; [reflexivity|].
   intros av Hav.
   pose proof (declared_of_ok t name args (DObject fs ifaces) Hf (lookup_In _ _ _ El) fs fd (or_intror I) Ef av Hav) as Hd.
@@ -1187,7 +1186,7 @@ Proof.
   end.
   assert (Htrip : exists tX s0, TT = (fst (sort_args S tX name args), [], s0) /\ s_calls s0 = s_calls s).
   { subst TT. destruct (lookup id (s_args s)) as [t0|].
-    - exists t0, s. auto.
+    - exists t0, s. rewrite (sort_args_noerr t0 name args Hargs). auto.
     - exists t, (mkSt ((id, t) :: s_args s) (s_calls s)).
       pose proof (sort_args_noerr t name args Hargs) as Hne.
       destruct (sort_args S t name args) as [a e]. simpl in Hne. subst e. auto. }
